@@ -80,7 +80,7 @@ func engineREC(w *World, tier string) *EngineResult {
 			if _, isMap := prm.Type().Underlying().(*types.Map); isMap {
 				for _, b := range fn.Blocks {
 					for _, ins := range b.Instrs {
-						if mu, ok := ins.(*ssa.MapUpdate); ok && mu.Map == ssa.Value(prm) {
+						if mu, ok := ins.(*ssa.MapUpdate); ok && sameOrPhiOf(mu.Map, prm, 0) {
 							guarded, why = true, "visited set "+prm.Name()
 						}
 						// test-and-mark in a helper: the set is handed to a function of the
@@ -91,7 +91,7 @@ func engineREC(w *World, tier string) *EngineResult {
 								continue
 							}
 							for ai, a := range c.Call.Args {
-								if a != ssa.Value(prm) || ai >= len(cal.Params) {
+								if !sameOrPhiOf(a, prm, 0) || ai >= len(cal.Params) {
 									continue
 								}
 								for _, cb := range cal.Blocks {
@@ -218,6 +218,23 @@ func dependsOn(v ssa.Value, x ssa.Value, depth int) bool {
 	for _, op := range ins.Operands(ops) {
 		if op != nil && *op != nil && dependsOn(*op, x, depth+1) {
 			return true
+		}
+	}
+	return false
+}
+
+
+// sameOrPhiOf: v is the parameter, or a phi one of whose edges is (`if visited == nil {
+// visited = map…{} }` keeps the parameter on the other edge).
+func sameOrPhiOf(v ssa.Value, prm *ssa.Parameter, depth int) bool {
+	if v == ssa.Value(prm) {
+		return true
+	}
+	if ph, ok := v.(*ssa.Phi); ok && depth < 3 {
+		for _, e := range ph.Edges {
+			if sameOrPhiOf(e, prm, depth+1) {
+				return true
+			}
 		}
 	}
 	return false
